@@ -207,6 +207,8 @@ def gen_C12(tier, seed):
             p.write(1, valid=False, mustraise='window', **opts)      # no rows [from, to) exist in a 4-row source
             progs.append(p.build())
     from scen2 import foreign_reference_programs, header_route_programs
+    from scen import gen_bad_label_numbers
+    progs += gen_bad_label_numbers('C12')
     progs += foreign_reference_programs('C12') + [q for q in header_route_programs('C12') if q['meta'].get('fringe')]
     return progs
 
